@@ -110,7 +110,7 @@ class AioImpl:
             for o in post:
                 impl.do_aop(o)
             if n < len(outs) and outs[n]:
-                raise core.FAILURES[(jid + n) % len(core.FAILURES)]("scripted failure")
+                raise core.failure_class(jid + n)("scripted failure")
 
         coro.__name__ = coro.__qualname__ = "coro%d" % jid
         if not any(sync):
@@ -121,7 +121,7 @@ class AioImpl:
             job = impl.jobs.get(jid)
             n = job.attempts if job is not None else 0
             if n < len(sync) and sync[n]:
-                raise core.FAILURES[(jid + n + 1) % len(core.FAILURES)]("raised by the call itself")
+                raise core.failure_class(jid + n + 1)("raised by the call itself")
             return coro(*args, **kwargs)
 
         handle.__name__ = handle.__qualname__ = "handle%d" % jid
@@ -205,6 +205,7 @@ class AioImpl:
                 if isinstance(kw["kwargs"], dict):
                     kw["kwargs"]["k99"] = 99
                 if k == "ASCHED":
+                    kw["tags"].clear()         # the caller recycles its set: the job must keep what it was given
                     kw["tags"].add("t99")
                 handed = job.tags
                 handed.add("t98")
@@ -216,7 +217,9 @@ class AioImpl:
                 res = self.do_aop(o[1])
             else:
                 raise ValueError(o)
-        except Exception as e:  # noqa
+        except (KeyboardInterrupt, SystemExit, GeneratorExit):
+            raise
+        except BaseException as e:  # noqa
             res = ("err", core.exc_name(e))
         return res
 
